@@ -9,13 +9,4 @@ def decodeKind (s : Str) : EventKind :=
   | some (_, k) => k
   | none => kindFallback
 
-/-- every one of the 41 kinds survives print-then-decode -/
-theorem kind_roundtrip_all : ∀ k ∈ allKinds, decodeKind k.dbg = k := by decide +kernel
-
-theorem kind_roundtrip (k : EventKind) : decodeKind k.dbg = k := kind_roundtrip_all k (allKinds_complete k)
-
-/-- the table has no row the printer cannot produce, and no duplicates -/
-theorem table_rows_are_printed : ∀ r ∈ kindTable, r.2.dbg = r.1 := by decide +kernel
-
-#print axioms kind_roundtrip
 end Wp
